@@ -280,13 +280,15 @@ func (e *Extractor) extractPrefixesAlternate(re *syntax.Regexp, depth int) *Seq 
 		result.KeepFirstBytes(3)
 		e.markAllInexact(result)
 		result.Dedup()
-		if result.Len() > e.config.MaxLiterals {
-			result.literals = result.literals[:e.config.MaxLiterals]
-		}
-		// Mark partial coverage when overflow truncated branches.
+		// Mark partial coverage when overflow truncated branches, or when the
+		// list itself has to be cut: the dropped literals are unrepresented.
 		// Prefilter with partial coverage CANNOT be used in candidate loops
 		// (would miss unrepresented branches). Only safe as skip-ahead
 		// inside NFA/DFA engine (Rust approach: PikeVM integrates prefilter).
+		if result.Len() > e.config.MaxLiterals {
+			result.literals = result.literals[:e.config.MaxLiterals]
+			result.partialCoverage = true
+		}
 		if overflowed {
 			result.partialCoverage = true
 		}
